@@ -351,3 +351,130 @@ def entry_eval(entry, f, extra, obj, msg, need):
     if st == "ok" and need is not None and len(msg) < need and accepted_as(entry, res, obj):
         return ("truncated-pdu-rejected", "accepted", {"required_bytes": need, "length": len(msg)}), st
     return None, st
+
+
+# ------------------------------------------------------------------ round 7: enum-env-data-descs
+"""enum-env-data-descs  an ENV-DATA-DESC (environment data selected by the numerical value of a preceding DTC parameter) x every
+                      kind of parameter that can be the DTC parameter (DTC-DOP of 8 / 24 / 16 low-high / 4 bits at a bit position,
+                      ordinary DATA-OBJECT-PROP identical / 16 bit / LINEAR / LINEAR with limits / TEXTTABLE, CODED-CONST 0 / 5 / max, PHYS-CONST 0 / 5)
+                      x every arrangement of ENV-DATAs (ALL-VALUE only, specific only, both, specific ones that leave code 0
+                      without environment data, one list that shares 0 with other codes + an empty ENV-DATA) x where the two
+                      parameters stand x PDUs whose DTC is 0, 1, a code with / without own environment data, the largest
+                      code of the object, a code the DTC-DOP does not know.
+The described length of each hand-written PDU is known from the description (selected ENV-DATAs), so every proper prefix of it
+has to be rejected."""
+ENV_PLACEMENTS = ["direct", "value-between", "then-byte", "in-struct", "edd-in-nested-struct", "response", "eop-field-item"]
+ENV_SETS = ["all-only", "specific-only", "all+specific", "zero-without-env", "zero-shared+empty-env"]
+
+
+def env_selectors():
+    """(name, parameter `d`, object that carries it on the wire (Std dct), bit position, {what: code on the wire})"""
+    def codes(n, **more):
+        return {"zero": 0, "one": 1, "with-env": 5, "known-without-env": 9, "max": (1 << n) - 1, "unknown-to-dtc-dop": 7, **more}
+
+    def dtc(n, hl=None):
+        cs = codes(n)
+        return D.DtcDop(D.Std("A_UINT32", n, None, hl), "A_UINT32", D.Identical(),
+                        [(cs[w], "DTC" + w.replace("-", "")) for w in ("zero", "one", "with-env", "known-without-env", "max")])
+    tt = D.TextTable([(0, 0, "none"), (1, 1, "one"), (5, 5, "env"), (9, 9, "known"), (255, 255, "max")])
+    out = []
+    for name, n, hl, bp in (("dtc-dop-8", 8, None, None), ("dtc-dop-24", 24, None, None), ("dtc-dop-16-low-high", 16, False, None),
+                            ("dtc-dop-4-bitpos", 4, None, 4)):
+        dd = dtc(n, hl)
+        out.append((name, val("d", dd, bitpos=bp), dd.dct, bp or 0, codes(n)))
+    for name, dop in (("uint8", _std("A_UINT32", 8)), ("uint16", _std("A_UINT32", 16)),
+                      ("linear", _std("A_UINT32", 8, "A_UINT32", D.Linear(1, 2, 1))),
+                      ("linear-limited", _std("A_UINT32", 8, "A_UINT32", D.Linear(1, 2, 1, (0, "CLOSED"), (200, "CLOSED")))),
+                      ("texttable", _std("A_UINT32", 8, "A_UNICODE2STRING", tt))):
+        out.append((name, val("d", dop), dop.dct, 0, codes(dop.dct.bitlen)))
+    for name, v in (("coded-const-0", 0), ("coded-const-5", 5), ("coded-const-max", 255)):
+        out.append((name, D.coded_const("d", D.Std("A_UINT32", 8), v), D.Std("A_UINT32", 8), 0, {"constant": v, "not-the-constant": v ^ 1}))
+    for name, v in (("phys-const-0", 0), ("phys-const-5", 5)):
+        out.append((name, D.phys_const("d", _std("A_UINT32", 8), v), D.Std("A_UINT32", 8), 0, {"constant": v, "not-the-constant": v ^ 1}))
+    return out
+
+
+def env_sets(kind, mx):
+    """[Env]; environment structures of different lengths (so that a wrong selection shows in the length)"""
+    b = lambda nm, n=8: val(nm, u8(n))      # noqa: E731
+    all_ = D.Env("envall", [], True, D.Struct([b("a")]))
+    e0 = D.Env("env0", [0], False, D.Struct([b("z", 16)]))
+    e1 = D.Env("env1", [1, mx], False, D.Struct([b("o")]))
+    e5 = D.Env("env5", [5], False, D.Struct([b("e"), b("e2")]))
+    if kind == "all-only":
+        return [all_]
+    if kind == "specific-only":
+        return [e0, e1, e5]
+    if kind == "all+specific":
+        return [e5, all_, e0, e1]
+    if kind == "zero-without-env":
+        return [D.Env("env1", [1], False, D.Struct([b("o")])), e5]
+    if kind == "zero-shared+empty-env":
+        return [D.Env("envs", [5, 0, mx], False, D.Struct([b("s"), b("s2", 16)])), D.Env("envnone", [9], False, D.Struct([]))]
+    raise ValueError(kind)
+
+
+def env_composite(sel, envs, placement, name="E"):
+    edd = val("x", D.EnvDataDesc("d", envs))
+    y = val("y", u8())
+    if placement == "direct":
+        return rq(sel, edd, name=name)
+    if placement == "value-between":
+        return rq(sel, val("m", u8()), edd, name=name)
+    if placement == "then-byte":
+        return rq(sel, edd, y, name=name)
+    if placement == "in-struct":
+        return rq(val("s", D.Struct([sel, edd])), y, name=name)
+    if placement == "edd-in-nested-struct":
+        return rq(sel, val("s", D.Struct([edd])), name=name)
+    if placement == "response":
+        return rq(sel, edd, name=name, kind="pos-response")
+    if placement == "eop-field-item":
+        return rq(val("f", D.EopField(D.Struct([sel, edd]))), name=name)
+    raise ValueError(placement)
+
+
+def env_length(envs, code):
+    """bytes of environment data a PDU with this numerical DTC carries: the ALL-VALUE ENV-DATA (first one), then the first
+    ENV-DATA that lists the code"""
+    def size(e):
+        return sum((p.dop.dct.bitlen + 7) // 8 for p in e.struct.params)
+    n = next((size(e) for e in envs if e.all), 0)
+    return n + next((size(e) for e in envs if not e.all and code in e.dtcs), 0)
+
+
+def enum_env_data_descs(rng=None):
+    """(composite, info) -- all of them (rng None) or one placement per (DTC parameter, arrangement of ENV-DATAs) drawn from rng.
+    info['pdus']: (what the DTC on the wire is, PDU written by hand, number of bytes the description describes for it | None)"""
+    i = 0
+    for sname, sel, dct, bp, codes in env_selectors():
+        mx = (1 << dct.bitlen) - 1
+        for es in ENV_SETS:
+            pls = ENV_PLACEMENTS if rng is None else [rng.choice(ENV_PLACEMENTS)]
+            for pl in pls:
+                i += 1
+                envs = env_sets(es, mx)
+                c = env_composite(sel, envs, pl, name=f"E{i}")
+                mid = b"\x07" if pl == "value-between" else b""
+                tail = b"\x08" if pl in ("then-byte", "in-struct") else b""
+                nb = (dct.bitlen + bp + 7) // 8
+                pdus = []
+                for what, code in codes.items():
+                    try:
+                        w = (refpdu.raw_of_internal(dct, code) << bp).to_bytes(nb, "big" if refpdu.numeric_order(dct) else "little")
+                    except Exception:  # noqa
+                        continue
+                    k = env_length(envs, code)
+                    item = w + mid + bytes(range(0xa1, 0xa1 + k))
+                    if pl == "eop-field-item":
+                        # two items: the second one's DTC decides about the second one's environment data; a PDU may end
+                        # behind any item, so only the static prefix (the SID) is required
+                        w5 = (refpdu.raw_of_internal(dct, codes.get("with-env", code)) << bp).to_bytes(nb, "big" if refpdu.numeric_order(dct) else "little")
+                        first = w5 + bytes(range(0xb1, 0xb1 + env_length(envs, codes.get("with-env", code))))
+                        pdus.append((what, b"\x22" + item, None))
+                        pdus.append((what + "-second-item", b"\x22" + first + item, None))
+                    else:
+                        # (a CODED-CONST whose value on the wire is not the constant is accepted with a warning, the constant
+                        # selects the environment data: not a PDU of this description, no length is claimed for it)
+                        pdus.append((what, b"\x22" + item + tail, None if what == "not-the-constant" else 1 + len(item) + len(tail)))
+                yield c, {"dtc-param": sname, "envs": es, "placement": pl, "pdus": pdus}
